@@ -152,13 +152,22 @@ def expected_rows(m):
     return [(eid, nid) for eid in sorted(order) for nid in order[eid]]
 
 
-def expected_columns(m, variables):
+# The driver hands ONE frame object per mesh to all calls of a history and rewrites its value columns in place before
+# every call: base values for geometry / set calls, a * base + b for a variable of the given state (the usual "loop
+# over load states updating the frame" usage).  Values of different states therefore differ, and an exporter that
+# remembers anything derived from an earlier call's frame content writes stale numbers.
+STATE_AFFINE = {None: (1.0, 0.0), "s1": (2.0, 0.5), "s2": (-1.0, 4.0)}
+
+
+def expected_columns(m, variables, state=None):
     """variables: list of (name, location, columns) in join order -> (column names, rows of values)."""
+    ncoord = 3 if has_z(m) else 2
     cols = ["x", "y"] + (["z"] if has_z(m) else [])
     for _, _, vcols in variables:
         cols += list(vcols)
+    a, b = STATE_AFFINE[state]
     raw = {(r["element_id"], r["node_id"]): r for r in raw_table(m)}
-    values = [[raw[key][c] for c in cols] for key in expected_rows(m)]
+    values = [[raw[key][c] if j < ncoord else a * raw[key][c] + b for j, c in enumerate(cols)] for key in expected_rows(m)]
     return cols, values
 
 
